@@ -1,10 +1,18 @@
 """C16 — work-unit-local storage is an independent key->value map per work unit.
 Proof: Props/C16.lean over Model.KTable (sequential core for every op sequence / table size / key count;
-interleaving model of the lazy NULL->LOCKED->table creation and of concurrent setters).
-Correspondence: T2 differential, API level + white-box dumps (harness/api_keys.c vs `driver ktable`)."""
+interleaving model of the lazy NULL->LOCKED->table creation) and Model.KTableConc (concurrent set/get on one
+table by any number of actors, all interleavings: append-only chains, one element per key, linearizable get,
+last-writer map, destructor once).
+Correspondence: T1 skeletons of the key-table functions and of the callers that pick the safe / non-safe variant;
+T2 differential, API level + white-box dumps (harness/api_keys.c vs `driver ktable`);
+T3 controlled-scheduler traces of harness/sc_ktable.c (owner + other units / external threads setting and getting
+colliding keys of one unit at the same time) validated event by event against Model.KTableConc
+(vlib/t3_ktable.py, `driver ktableconc`), with native monitors for get results, final values, chain shape and
+destructor counts."""
 import collections, json
 from vlib import common as C
 from vlib import diff as D
+from vlib import t1, vs, t3_ktable
 
 
 def _retry(f, *a):
@@ -20,8 +28,10 @@ def _retry(f, *a):
 ASSUMPTIONS = [
     "fewer than 2^32 - 2 keys are created in one process (g_key_id is a uint32 that is never reset, ids are unique until it wraps)",
     "ABT_KEY_TABLE_SIZE <= 2^30: the loader can produce 2^31, which does not fit the `int size` field of ABTI_ktable (would also need a 16 GiB table)",
-    "concurrent accesses follow the documented contract: no two work units set the same key of one unit at the same time, a unit is not freed while others access its keys (thread_free asserts !LOCKED)",
-    "interleaving model is sequentially consistent at the granularity of the C11 atomics used (acquire-load / weak CAS / release-store / spinlock); plain stores to `value` are single steps",
+    "a unit is not freed while others access its keys (thread_free asserts !LOCKED; Model.KTableConc's free event requires every actor idle); concurrent sets/gets of the same or of colliding keys of one unit ARE covered (Model.KTableConc, sc_ktable)",
+    "interleaving models are sequentially consistent at the granularity of the C11 atomics used (acquire-load / weak CAS / release-store / spinlock); the plain accesses to `value` are single steps of their own (a data race on `value` between a set and a get/set of the same key is what the API documents as the caller's business; the model gives it last-writer / linearizable-read semantics)",
+    "T3: under vsched a plain `value` access executes atomically with the preceding atomic operation of its thread, so the projection places storeVal/readVal there; finer placements are covered by the proof only",
+    "T3: the table lock is the only lock observed; allocation of element storage (mem-pool internals) is not projected; the owner's table is created by ythread_create's non-safe variant (migration-callback attribute) before the trace starts and replayed as a synthesized prefix",
     "ktable_create_race excludes allocation failure: with it, a caller spinning on LOCKED dereferences NULL after the creator stores NULL (Props.C16.ktable_create_race_failure_path; reported to the lead, concerns C18)",
     "API harness runs on the `plain` build (ASan's __asan_handle_no_return rejects the fcontext switch at ULT exit); ABTI_ASSERT is active",
     "T2 drives one execution stream (deterministic); sets by another unit 'while the owner runs' are sets on an ancestor (the primary ULT) from inside a child unit; true parallel sets are covered by the interleaving proof only",
@@ -287,12 +297,42 @@ def t2_keys(res, tier, broken):
                 key_op_histogram=dict(hist), key_table_sizes=sorted(cov["sizes"]), max_live_keys=cov["max_keys"])
 
 
+T1_FUNCS = [("key.c", f) for f in [
+    "ABTI_ktable_set_impl", "ABTI_ktable_set", "ABTI_ktable_set_unsafe", "ABTI_ktable_get", "ABTI_ktable_create",
+    "ABTI_ktable_alloc_elem", "ABTI_ktable_get_idx", "ABTI_ktable_is_valid", "ABTI_ktable_free", "ABT_key_set",
+    "ABT_key_get", "ABT_key_create", "ABTD_spinlock_acquire", "ABTD_spinlock_release"]] + [
+    ("self.c", "ABT_self_set_specific"), ("self.c", "ABT_self_get_specific"),
+    ("thread.c", "ABT_thread_set_specific"), ("thread.c", "ABT_thread_get_specific"),
+    ("thread.c", "ABTI_thread_get_mig_data"), ("thread.c", "ythread_create"), ("thread.c", "thread_free")]
+
+
+def scenario_params(rng):
+    nes = 2 + rng.below(2)
+    nact = 2 + rng.below(4)
+    rounds = 3 + rng.below(5)
+    nkeys = 2 + rng.below(4)
+    size = rng.choice([1, 1, 2, 4])
+    return [nes, nact, rounds, nkeys, size, rng.choice([0, 25, 50]), rng.choice([20, 35, 50])]
+
+
+def t3_conc(res, tier, broken):
+    n, tb = t1.check(T1_FUNCS)
+    res.add_cov(t1_functions=n, t1_broken=len(tb))
+    for b in tb:
+        broken.append({"kind": "T1-skeleton", **b})
+    vs.campaign(res, broken, tier, "C16", "sc_ktable", ["sc_ktable.c"], scenario_params, t3_ktable.validate,
+                sizes={"quick": (16, 4), "thorough": (150, 8), "search": (150, 8)})
+
+
 def run(res, tier, broken):
+    t3_conc(res, tier, broken)
     t2_keys(res, tier, broken)
 
 
 def replay(res, path):
     rep = json.load(open(path))
+    if rep.get("scenario") == "sc_ktable":
+        return vs.replay("sc_ktable", ["sc_ktable.c"], path, t3_ktable.validate)
     exe = C.cc_harness("api_keys", ["api_keys.c"], "plain")
     if "ops" in rep:
         d = _cmp(exe, rep["ops"])
